@@ -304,4 +304,6 @@ def rule_reset_restores_fresh_state(ctx):
     decide(ctx, "O5.4b", "reset() restores the fresh state", IS_UNIQUE + ".reset", cell, min_cells=4)
 
 
-RULES = [rule_is_unique, rule_distinct_count, rule_reset_restores_fresh_state, rule_only_accepted_rows, rule_reset_completeness, rule_same_data_set_only]
+from .common import rule_module_state  # noqa: E402
+
+RULES = [rule_is_unique, rule_distinct_count, rule_reset_restores_fresh_state, rule_only_accepted_rows, rule_reset_completeness, rule_same_data_set_only, rule_module_state]
